@@ -411,39 +411,53 @@ func runPeer(line string, t []string) string {
 			}
 			out = append(out, fmt.Sprintf("n=%d:%d", arg, btoi(!hung)))
 		case 'C':
-			time.Sleep(300 * time.Millisecond)
-			g := runtime.NumGoroutine() - baseGor
-			gb := "0"
-			switch {
-			case g > 200:
-				gb = ">200"
-			case g > 40:
-				gb = ">40"
-			case g > 12:
-				gb = ">12"
-			}
-			buf := make([]byte, 4<<20)
-			stacks := string(buf[:runtime.Stack(buf, true)])
-			if os.Getenv("VERIF_GDUMP") != "" {
-				fmt.Fprintf(os.Stderr, "%s\n", stacks)
-			}
-			// go-diameter's per-connection watchdog tasks still running (no connection is open by now)
-			wd := strings.Count(stacks, "sm.(*Client).watchdog(")
-			// answer handlers of the CHF's clients that have not returned
-			hd := 0
-			for _, g := range strings.Split(stacks, "\n\n") {
-				if strings.Contains(g, "HandleSUA.func") || strings.Contains(g, "HandleCCA.func") {
-					hd++
+			// what is left behind stays behind: when a count is not zero the sample is repeated (up to twice, a second
+			// apart), so that a teardown still in flight on a loaded machine is not taken for a leak
+			var obs string
+			for try := 0; try < 3; try++ {
+				if try == 0 {
+					time.Sleep(300 * time.Millisecond)
+				} else {
+					time.Sleep(time.Second)
+				}
+				g := runtime.NumGoroutine() - baseGor
+				gb := "0"
+				switch {
+				case g > 200:
+					gb = ">200"
+				case g > 40:
+					gb = ">40"
+				case g > 12:
+					gb = ">12"
+				}
+				buf := make([]byte, 4<<20)
+				stacks := string(buf[:runtime.Stack(buf, true)])
+				if os.Getenv("VERIF_GDUMP") != "" {
+					fmt.Fprintf(os.Stderr, "%s\n", stacks)
+				}
+				// go-diameter's per-connection watchdog tasks still running (no connection is open by now)
+				wd := strings.Count(stacks, "sm.(*Client).watchdog(")
+				// answer handlers of the CHF's clients that have not returned
+				hd := 0
+				for _, g := range strings.Split(stacks, "\n\n") {
+					if strings.Contains(g, "HandleSUA.func") || strings.Contains(g, "HandleCCA.func") {
+						hd++
+					}
+				}
+				// request handlers of the two servers still running; those asleep in the scripted delay do not count
+				sh := 0
+				for _, g := range strings.Split(stacks, "\n\n") {
+					if serverHandlerTasks(g) > 0 && !strings.Contains(g, "main.peerGetOne") {
+						sh++
+					}
+				}
+				conns, socks := peerConns()-baseConns, peerSocketsAnyState()-baseSocks
+				obs = fmt.Sprintf("c=%d:%s:%d:%d:%d:%d:%d", conns, gb, g, wd, hd, sh, socks)
+				if conns <= 0 && gb == "0" && wd == 0 && hd == 0 && sh == 0 && socks <= 0 {
+					break
 				}
 			}
-			// request handlers of the two servers still running; those asleep in the scripted delay do not count
-			sh := 0
-			for _, g := range strings.Split(stacks, "\n\n") {
-				if serverHandlerTasks(g) > 0 && !strings.Contains(g, "main.peerGetOne") {
-					sh++
-				}
-			}
-			out = append(out, fmt.Sprintf("c=%d:%s:%d:%d:%d:%d:%d", peerConns()-baseConns, gb, g, wd, hd, sh, peerSocketsAnyState()-baseSocks))
+			out = append(out, obs)
 		default:
 			return "bad-op"
 		}
@@ -509,7 +523,6 @@ func genPeer(o genOpts, w *bufio.Writer) {
 		scen("HA1500 HA1500 A4000 U100 U228 W1000 C")
 		scen("HA3500 HA1500 A2500 U100 U228 U484 W1000 C")
 		scen("HR1500 HR0 HR0 HR1500 R4000 U100 U228 W1000 C")
-		scen("HA700 HA700 A4600 U100 U228 W1000 C")
 	}
 	// stored account documents a server cannot digest: its handler fails without an answer (recovered panic or early
 	// return); the requests time out and complete, and nothing of them may stay behind on either side
